@@ -1480,6 +1480,27 @@ def rule_linalg(ctx):
     probs.append("rows of a are moved (from, to) %s but entries of b %s" % (sorted(moves[pa]), sorted(moves[pb])))
   if pops[pa] != {m[0] for m in moves[pa]} or pops[pb] != {m[0] for m in moves[pb]}:
     probs.append("a row is removed without being re-inserted")
+  # a row moved away from a zero pivot stays among the active rows: the rows [0, bound) are the ones still swept and handed to back-substitution, and
+  # once dependent rows have been parked behind them (bound < len(a)) `insert(bound, pop(i))` lands *behind* the first parked zero row - an
+  # independent equation leaves the window and a zero row enters it.  After the pop the last active position is bound - 1.
+  in_rows = {i_ for bp in rowl["body_paths"] for i_ in bp[2].trace[bp[3]:]}
+  for idx_, e in enumerate(w.events):
+    if e.kind != "mutate" or e.data["method"] != "insert" or len(e.data["args"]) != 2 or idx_ in in_rows:
+      continue
+    rt = _root(as_poly(e.data["recv"]), names) if isinstance(e.data["recv"], (Poly, Atom)) else None
+    sa = e.data["args"][1].as_atom() if isinstance(e.data["args"][1], Poly) else None
+    if rt not in (pa, pb) or sa is None or sa.kind != "mcall" or repr(sa.args[1]) != "lit('pop')":
+      continue
+    Wv = e.state.env.get(nn[0])
+    if not isinstance(Wv, (Poly, int)):
+      probs.append("the bound of the active rows is not tracked at the zero-pivot move")
+      continue
+    pos = as_poly(e.data["args"][0])
+    if not (pos - (as_poly(Wv) - 1)).is_zero():
+      probs.append("a row moved away from a zero pivot is re-inserted at %s with %s active rows: after the pop the last active position is bound - 1; at `bound` the row "
+                   "lands behind a parked zero row as soon as a dependent row has been removed, and the solver answers from the wrong equations" % (
+                       norm(e.node.args[0]) if e.node is not None and getattr(e.node, "args", None) else repr(pos), nn[0]))
+  probs = sorted(set(probs))
   ctx.record(R, f.where, "row moves on (a | b)", not probs, "; ".join(probs) or "every a.insert(pos, a.pop(r)) has its b.insert(pos, b.pop(r)): %d distinct moves" % len(moves[pa]))
 
 
